@@ -64,21 +64,27 @@ def Prefixes.find? {K : Type} (p : Prefixes K) (k : String) : Option K :=
   | [] => none
   | (k', v) :: r => if k' = k then some v else Prefixes.find? r k
 
-/-- `_split_prefix(symbol_str, unit_symbol_lut)`: a single attempt — the first character
-    (or `da`) as prefix, the rest as a *prefixable* table symbol. The real code indexes
-    `symbol_str[0]` and so raises `IndexError` on the empty string; the model returns
-    `("", "")` there and the callers never pass it (the parser maps "" to 1). -/
-def splitPrefix {K : Type} (pre : Prefixes K) (t : Lut K) (s : String) : String × String :=
+/-- the string part of `_split_prefix`: the only candidate split — `da` + rest when the string
+    starts with `da`, else first character + rest.  (The real code indexes `symbol_str[0]` and so
+    raises `IndexError` on the empty string; the model has no candidate there and the callers
+    never pass it: the parser maps "" to 1.) -/
+def splitCandidate (s : String) : Option (String × String) :=
   let cs := s.toList
   match cs with
-  | [] => ("", s)
+  | [] => none
   | c :: rest =>
-    let da := cs.take 2 == ['d', 'a']
-    let p : String := if da then "da" else String.ofList [c]
+    if cs.take 2 == ['d', 'a'] then some ("da", String.ofList (cs.drop 2))
+    else some (String.ofList [c], String.ofList rest)
+
+/-- `_split_prefix(symbol_str, unit_symbol_lut)`: a single attempt — the candidate prefix must
+    be a prefix key and the rest a *prefixable* table symbol -/
+def splitPrefix {K : Type} (pre : Prefixes K) (t : Lut K) (s : String) : String × String :=
+  match splitCandidate s with
+  | none => ("", s)
+  | some (p, wo) =>
     match pre.find? p with
     | none => ("", s)
     | some _ =>
-      let wo : String := if da then String.ofList (cs.drop 2) else String.ofList rest
       match t.find? wo with
       | some e => if e.prefixable then (p, wo) else ("", s)
       | none => ("", s)
@@ -90,9 +96,9 @@ def lookupUnitSymbol {K : Type} [Mul K] (pre : Prefixes K) (t : Lut K) (s : Stri
   match t.find? s with
   | some e => .ok (e, t)
   | none =>
-    let (p, wo) := splitPrefix pre t s
-    if p = "" then .error .UnitParseError else
-    match t.find? wo, pre.find? p with
+    let sp := splitPrefix pre t s
+    if sp.1 = "" then .error .UnitParseError else
+    match t.find? sp.2, pre.find? sp.1 with
     | some e, some pv =>
       let d : Entry K := { scale := e.scale * pv, dim := e.dim, offset := e.offset, prefixable := false }
       .ok (d, t.set s d)
